@@ -30,7 +30,7 @@ inductive Entry where
   | ent (path : Str) (user : Bool) (isDir : Bool) (mode mtime atime : Nat) (data : Str)
   | exitSubdir
 
-def sentinelName : Str := EXIT_SUBDIR_FILENAME.toUTF8.toList
+def sentinelName : Str := EXIT_SUBDIR_FILENAME_BYTES.map UInt8.ofNat
 def exitFlag : Str := [UInt8.ofNat EXIT_SUBDIR_FLAG_0, UInt8.ofNat EXIT_SUBDIR_FLAG_1]
 
 mutual
